@@ -83,6 +83,25 @@ def _rv(fr):
     return z3.RealVal(fr)
 
 
+_CANON = {}
+
+
+def _canon(t):
+    """Canonical polynomial form (sum of monomials) so that equal polynomials share one term."""
+    k = t.get_id()
+    hit = _CANON.get(k)
+    if hit is not None:
+        return hit[0]
+    if z3.is_app(t) and t.num_args() == 0:
+        r = t
+    else:
+        r = z3.simplify(t, som=True, som_blowup=2000)
+    if len(_CANON) > 100000:
+        _CANON.clear()
+    _CANON[k] = (r, t)
+    return r
+
+
 class Stats:
     def __init__(self):
         self.solver_calls = 0
@@ -280,8 +299,8 @@ class Ctx:
         key = b.get_id()
         n = len(self.pc) + len(self.defs)
         hit = self._pos_cache.get(key)
-        if hit is not None and (hit[0] is True or hit[1] == n):
-            return hit[0]
+        if hit is not None:
+            return hit[0]      # answers stay fixed along a path (consistent normalisation)
         m = self.model
         if m is not None:
             try:
@@ -298,6 +317,9 @@ class Ctx:
     # ---- definitions
     def inv(self, b):
         """1/b for a non-numeral term b: hash-consed fresh variable with b*q = 1."""
+        if _is_num(b):
+            return _rv(1 / _num(b))
+        b = _canon(b)
         if _is_num(b):
             return _rv(1 / _num(b))
         key = b.get_id()
@@ -324,6 +346,15 @@ class Ctx:
             n, d = math.isqrt(fr.numerator), math.isqrt(fr.denominator)
             if n * n == fr.numerator and d * d == fr.denominator:
                 return _rv(Fraction(n, d))
+        if not _is_num(a):
+            a0 = a
+            a = _canon(a)
+            if _is_num(a):
+                return self.sqrt(a)
+            # keep the syntactic square shortcuts on the original term
+            if z3.is_mul(a0) and a0.num_args() == 2 and a0.arg(0).get_id() == a0.arg(1).get_id():
+                t = a0.arg(0)
+                return z3.If(t >= 0, t, -t)
         key = a.get_id()
         hit = self._sqrt.get(key)
         if hit is not None:
@@ -403,13 +434,13 @@ class Ctx:
         atoms = {i: ak for i, ak in atoms.items() if ak[1] != 0}
         ok = c > 0 and all(self.implied(a > 0) for a, _ in atoms.values())
         if not ok:
-            return LOG(t)
+            return LOG(_canon(t))
         res = _rv(Fraction(math.log(float(c)))) if c != 1 else z3.RealVal(0)
         for a, k in atoms.values():
             if z3.is_app(a) and a.decl().eq(EXP):
                 res = res + _rv(k) * a.arg(0)
             else:
-                res = res + _rv(k) * LOG(a)
+                res = res + _rv(k) * LOG(_canon(a))
         return res
 
     # ---- obligations
@@ -470,6 +501,22 @@ class Ctx:
                 s.add(*lemmas)
                 if time.time() - t0 > timeout_ms / 1000.0:
                     break
+            if r == 'sat' and self._input_order:
+                # prefer a counterexample with moderate values (rounding in the float replay)
+                for box, lo in ((8, Fraction(1, 16)), (64, Fraction(1, 1024))):
+                    s.push()
+                    for name in self._input_order:
+                        v = self.inputs[name]
+                        s.add(v >= -box, v <= box, z3.Or(v == 0, v >= lo, v <= -lo))
+                    s.set('timeout', 3000)
+                    self.stats.solver_calls += 1
+                    if str(s.check()) == 'sat':
+                        m2 = s.model()
+                        if not _refine_lemmas(apps, m2):
+                            m = m2
+                            s.pop()
+                            break
+                    s.pop()
         ob['_m'] = m
         ob['ms'] = (time.time() - t0) * 1000
         self.stats.solver_time += time.time() - t0
@@ -1796,3 +1843,140 @@ def _refine_lemmas(apps, m):
         if n == 'EXP':
             lem.append(e >= _rv(Fraction(tv)) * (1 + a - ra) - _rv(Fraction(d)))
     return lem
+
+
+# --------------------------------------------------------------------------
+# symbolic differentiation of z3 terms (through the engine's own definitions)
+
+class Differ:
+    def __init__(self, c, var):
+        self.c = c
+        self.var = var.t if isinstance(var, SymReal) else var
+        self.vid = self.var.get_id()
+        self.cache = {}
+
+    def d(self, t):
+        k = t.get_id()
+        hit = self.cache.get(k)
+        if hit is not None:
+            return hit[0]
+        r = self._d(t)
+        self.cache[k] = (r, t)
+        return r
+
+    def _d(self, t):
+        zero = z3.RealVal(0)
+        if _is_num(t):
+            return zero
+        if t.get_id() == self.vid:
+            return z3.RealVal(1)
+        if not z3.is_app(t):
+            raise NotImplementedError('diff of %s' % t)
+        kind = t.decl().kind()
+        ch = t.children()
+        if t.num_args() == 0:
+            df = self.c._defof.get(t.get_id())
+            if df is None:
+                return zero
+            if df[0] == 'inv':            # q*b = 1  =>  dq = -q^2 db
+                db = self.d(df[1])
+                return zero if _is_zero(db) else -(t * t) * db
+            if df[0] == 'sqrt':           # r*r = a  =>  dr = da / (2 r)
+                da = self.d(df[1])
+                return zero if _is_zero(da) else da * self.c.inv(2 * t)
+        if kind == z3.Z3_OP_ADD:
+            parts = [self.d(x) for x in ch]
+            parts = [p for p in parts if not _is_zero(p)]
+            return z3.Sum(parts) if len(parts) > 1 else (parts[0] if parts else zero)
+        if kind == z3.Z3_OP_SUB:
+            r = self.d(ch[0])
+            for x in ch[1:]:
+                dx = self.d(x)
+                if not _is_zero(dx):
+                    r = r - dx
+            return r
+        if kind == z3.Z3_OP_UMINUS:
+            dx = self.d(ch[0])
+            return zero if _is_zero(dx) else -dx
+        if kind == z3.Z3_OP_MUL:
+            terms = []
+            for i, x in enumerate(ch):
+                dx = self.d(x)
+                if _is_zero(dx):
+                    continue
+                rest = [y for j, y in enumerate(ch) if j != i]
+                prod = dx
+                for y in rest:
+                    prod = prod * y
+                terms.append(prod)
+            return z3.Sum(terms) if len(terms) > 1 else (terms[0] if terms else zero)
+        if kind == z3.Z3_OP_DIV:
+            a, b = ch
+            if _is_num(b):
+                da = self.d(a)
+                return zero if _is_zero(da) else da / b
+            ib = self.c.inv(b)
+            return self.d(a * ib)
+        if kind == z3.Z3_OP_POWER and _is_num(ch[1]) and _num(ch[1]).denominator == 1:
+            n = int(_num(ch[1]))
+            dx = self.d(ch[0])
+            if _is_zero(dx):
+                return zero
+            if n == 0:
+                return zero
+            base = ch[0]
+            p = z3.RealVal(n)
+            for _ in range(n - 1):
+                p = p * base
+            return p * dx
+        if kind == z3.Z3_OP_ITE:
+            return z3.If(ch[0], self.d(ch[1]), self.d(ch[2]))
+        if kind == z3.Z3_OP_UNINTERPRETED and t.num_args() == 1:
+            n = t.decl().name()
+            u = ch[0]
+            du = self.d(u)
+            if _is_zero(du):
+                return zero
+            if n == 'LOG':
+                return du * self.c.inv(u)
+            if n == 'EXP':
+                return t * du
+            if n == 'ERF':
+                return _rv(Fraction(2 / math.sqrt(math.pi))) * EXP(-(u * u)) * du
+            if n == 'ATAN':
+                return du * self.c.inv(1 + u * u)
+            if n == 'LGAMMA':
+                return uf('DIGAMMA', 1)(u) * du
+            if n == 'SIN':
+                return uf('COS', 1)(u) * du
+            if n == 'COS':
+                return -uf('SIN', 1)(u) * du
+        if kind == z3.Z3_OP_UNINTERPRETED and t.num_args() >= 1:
+            # generic UF  F(u1..uk): partial derivatives are UFs  F__d<i>(u1..uk)
+            n = t.decl().name()
+            terms = []
+            for i, u in enumerate(ch):
+                du = self.d(u)
+                if _is_zero(du):
+                    continue
+                Fi = uf('%s__d%d' % (n, i), t.num_args())
+                terms.append(Fi(*ch) * du)
+            return z3.Sum(terms) if len(terms) > 1 else (terms[0] if terms else zero)
+        raise NotImplementedError('diff of %s (%s)' % (t.decl().name(), kind))
+
+
+def _is_zero(t):
+    return _is_num(t) and _num(t) == 0
+
+
+def gradient_of(c, expr, xs):
+    """Symbolic gradient of a scalar expression w.r.t. the list of SymReal variables xs."""
+    if isinstance(expr, np.ndarray):
+        assert expr.size == 1
+        expr = expr.ravel()[0]
+    if not isinstance(expr, SymReal):
+        return [0.0 for _ in xs]
+    out = []
+    for x in xs:
+        out.append(SymReal(Differ(c, x).d(expr.t)))
+    return out
